@@ -62,7 +62,7 @@ func ctxNeverCancelled(w *core.World, fn *core.FuncInfo, depth int, trail *[]str
 }
 
 func checkC11(r *core.Run) {
-	r.Explain = "Decided statically: (C11.accept) the async worker's BranchCommit answers 'committed' only on paths where the request was put on the commit queue; an arm that gives up on ctx.Done() is tolerated only if every caller up the call graph (bound 4) passes a context derived from context.Background(); (C11.requeue) in the batch handler every failure branch (resource missing, connection not obtained, undo-log manager missing, delete failed) re-sends every affected item to the queue and does not go on to use what it failed to obtain; (C11.key) each delete is keyed by both identifiers of one element: the two slice arguments of BatchDeleteUndoLog are one-element literals built from the same element, both parameters reach the statement's argument list and the statement builder mentions both columns; (C11.alive) the consumer goroutine is started by the constructor and its loop has no exit. NOT decided: eventual completion, queue-pressure deadlock, batching schedules (liveness)."
+	r.Explain = "Decided statically: (C11.batch) a slice read by a closure that the async worker hands to another goroutine (worker pool or go statement) is freshly allocated in the handing function, or the function gives up its own reference (sets the source to nil / a new slice) — an alias of the collector's buffer, which is reset with [:0] and appended to again, would be overwritten before the closure runs; (C11.accept) the async worker's BranchCommit answers 'committed' only on paths where the request was put on the commit queue; an arm that gives up on ctx.Done() is tolerated only if every caller up the call graph (bound 4) passes a context derived from context.Background(); (C11.requeue) in the batch handler every failure branch (resource missing, connection not obtained, undo-log manager missing, delete failed) re-sends every affected item to the queue and does not go on to use what it failed to obtain; (C11.key) each delete is keyed by both identifiers of one element: the two slice arguments of BatchDeleteUndoLog are one-element literals built from the same element, both parameters reach the statement's argument list and the statement builder mentions both columns; (C11.alive) the consumer goroutine is started by the constructor and its loop has no exit. NOT decided: eventual completion, queue-pressure deadlock, batching schedules (liveness)."
 	r.Trusted = []string{"go/types, go/cfg", "fanout.Do with a background context fails only after Close (never called)"}
 	w := r.W
 	aw := w.NamedType("pkg/datasource/sql", "AsyncWorker")
@@ -388,6 +388,8 @@ func checkC11(r *core.Run) {
 			r.Check(endless && !exits && consumes, "C11.alive", core.ShortKey(loopFn.Obj)+" : endless loop receiving from the queue", w.Pos(loopFn.Decl.Pos()), "for { select { <-queue ... } } without exit", "the consumer loop can terminate (return/labelled break/panic) or does not receive from the commit queue")
 		}
 	}
+	c11Batch(r, aw)
+	r.Floor("C11.batch", 1)
 	r.Floor("C11.accept", 2)
 	r.Floor("C11.requeue", 6)
 	r.Floor("C11.key", 4)
@@ -432,4 +434,140 @@ func c11Key(r *core.Run, h *core.FuncInfo, call *ast.CallExpr) {
 	b1, f1, ok1 := elem(call.Args[1])
 	r.Check(ok0 && ok1 && b0 == b1 && f0 == "Xid" && f1 == "BranchID", "C11.key", key, w.Pos(call.Pos()),
 		"one-element lists built from the same element's Xid and BranchID", "the delete is not keyed by the xid and branch id of one and the same queued element (got "+b0+"."+f0+" / "+b1+"."+f1+"): another branch's undo log could be deleted")
+}
+
+// c11Batch: slices captured by closures that leave the goroutine do not alias a buffer that lives on.
+func c11Batch(r *core.Run, aw *types.Named) {
+	w := r.W
+	if aw == nil {
+		return
+	}
+	for _, f := range w.SortedFuncs() {
+		if core.RecvNamed(f.Obj) != aw || w.IsTestFile(f.Decl.Pos()) || f.Decl.Body == nil {
+			continue
+		}
+		info := f.Pkg.TypesInfo
+		// closures that escape: argument of a call, or body of a go statement; idents bound to a literal are followed
+		litOf := func(e ast.Expr) *ast.FuncLit {
+			switch x := ast.Unparen(e).(type) {
+			case *ast.FuncLit:
+				return x
+			case *ast.Ident:
+				if v, ok := info.Uses[x].(*types.Var); ok {
+					for _, d := range localDefs(f, v) {
+						if l, ok := ast.Unparen(d.rhs).(*ast.FuncLit); ok {
+							return l
+						}
+					}
+				}
+			}
+			return nil
+		}
+		type esc struct {
+			lit *ast.FuncLit
+			how string
+		}
+		var escs []esc
+		ast.Inspect(f.Decl.Body, func(n ast.Node) bool {
+			switch x := n.(type) {
+			case *ast.GoStmt:
+				if l := litOf(x.Call.Fun); l != nil {
+					escs = append(escs, esc{l, "go statement"})
+				}
+				for _, a := range x.Call.Args {
+					if l := litOf(a); l != nil {
+						escs = append(escs, esc{l, "go statement"})
+					}
+				}
+			case *ast.CallExpr:
+				for _, a := range x.Args {
+					if l := litOf(a); l != nil {
+						escs = append(escs, esc{l, "call of " + core.ExprString(x.Fun)})
+					}
+				}
+			}
+			return true
+		})
+		for _, e := range escs {
+			r.Fn(f)
+			// free slice variables of the literal
+			seen := map[*types.Var]bool{}
+			ast.Inspect(e.lit.Body, func(n ast.Node) bool {
+				id, ok := n.(*ast.Ident)
+				if !ok {
+					return true
+				}
+				v, ok := info.Uses[id].(*types.Var)
+				if !ok || v.IsField() || seen[v] || v.Pos() >= e.lit.Pos() && v.Pos() < e.lit.End() || v.Pkg() == nil || v.Parent() == v.Pkg().Scope() {
+					return true
+				}
+				t := v.Type()
+				if p, ok := t.Underlying().(*types.Pointer); ok {
+					t = p.Elem()
+				}
+				if _, isSlice := t.Underlying().(*types.Slice); !isSlice {
+					return true
+				}
+				seen[v] = true
+				r.Sites++
+				key := core.ShortKey(f.Obj) + " closure handed to " + e.how + " reads '" + v.Name() + "'"
+				pos := w.Pos(e.lit.Pos())
+				if isParam(f, v) {
+					r.Bad("C11.batch", key, pos, "the closure runs on another goroutine but reads the caller's slice '"+v.Name()+"' directly")
+					return true
+				}
+				bad := ""
+				for _, d := range localDefs(f, v) {
+					src := aliasSource(d.rhs)
+					if src == nil {
+						continue
+					}
+					// handed over: the function drops its own reference afterwards
+					given := false
+					srcText := core.ExprString(src)
+					ast.Inspect(f.Decl.Body, func(m ast.Node) bool {
+						as, ok := m.(*ast.AssignStmt)
+						if !ok || len(as.Lhs) != 1 || len(as.Rhs) != 1 || core.ExprString(as.Lhs[0]) != srcText || as.Pos() < d.rhs.End() {
+							return true
+						}
+						switch rh := ast.Unparen(as.Rhs[0]).(type) {
+						case *ast.Ident:
+							given = given || rh.Name == "nil"
+						case *ast.CallExpr:
+							if fid, ok := rh.Fun.(*ast.Ident); ok && fid.Name == "make" {
+								given = true
+							}
+						case *ast.CompositeLit:
+							given = true
+						}
+						return true
+					})
+					if !given {
+						bad = "'" + v.Name() + "' is defined as '" + core.ExprString(d.rhs) + "', which shares its backing array with '" + srcText + "', and the function keeps using '" + srcText + "'"
+					}
+				}
+				r.Check(bad == "", "C11.batch", key, pos, "the batch is a private copy (or ownership is handed over)", bad+": requests buffered after the hand-over overwrite the batch before the worker reads it, so acknowledged branch commits are lost (their undo logs are never deleted)")
+				return true
+			})
+		}
+	}
+}
+
+// aliasSource returns the expression whose backing array e shares (slicing, plain copy of the header), nil when e
+// allocates (make, literal, append onto nil / a fresh slice, any other call).
+func aliasSource(e ast.Expr) ast.Expr {
+	switch x := ast.Unparen(e).(type) {
+	case *ast.SliceExpr:
+		return x.X
+	case *ast.StarExpr, *ast.SelectorExpr, *ast.Ident:
+		if id, ok := x.(*ast.Ident); ok && id.Name == "nil" {
+			return nil
+		}
+		return x
+	case *ast.CallExpr:
+		if id, ok := x.Fun.(*ast.Ident); ok && id.Name == "append" && len(x.Args) > 0 {
+			return aliasSource(x.Args[0])
+		}
+	}
+	return nil
 }
